@@ -245,7 +245,8 @@ class GenUnit(corr.Unit):
         for t, r in enumerate(out["rows"]):
             sv = float(r[ci["schedule [kW]"]])
             if abs(sv) > out["rating"] + 1e-3:
-                v.append(("C13/outside-rating", "row %d schedule %s outside the connector rating %s: %s" % (t, sv, out["rating"], d)))
+                cls = "C13/outside-rating/individual-battery" if case["individual"] and case["js"]["components"].get("batteries") else "C13/outside-rating"
+                v.append((cls, "row %d schedule %s outside the connector rating %s: %s" % (t, sv, out["rating"], d)))
             if "flex" in out and not (out["flex"]["min"][t] - 2e-3 <= sv <= out["flex"]["max"][t] + 2e-3):
                 v.append(("C13/outside-flex", "row %d schedule %s outside the flexibility band [%s, %s]: %s" % (t, sv, out["flex"]["min"][t], out["flex"]["max"][t], d)))
             cur, res_ = float(r[ci["curtailment new [kW]"]]), float(r[ci["residual load new [kW]"]])
